@@ -72,13 +72,15 @@ def _expr_roundtrip_impl(p, c):
     return _strict_same(out, tree)
 
 
-def expr_roundtrip3(p: int, b0: bool, b1: bool, b2: bool, b3: bool, b4: bool, b5: bool, b6: bool, b7: bool, b8: bool, b9: bool, b10: bool, b11: bool, b12: bool, b13: bool) -> bool:
+def expr_roundtrip3(b0: bool, b1: bool, b2: bool, b3: bool, b4: bool, b5: bool, b6: bool, b7: bool, b8: bool, b9: bool, b10: bool, b11: bool, b12: bool, b13: bool, b14: bool, b15: bool, b16: bool, b17: bool, b18: bool, b19: bool, b20: bool) -> bool:
     """
-    pre: 0 <= p < N_SLOT
     post: _
     """
-    idx = bits_index(b0, b1, b2, b3, b4, b5, b6, b7, b8, b9, b10, b11, b12, b13)
-    if idx >= N_CHILD * N_CHILD:
+    # b0-b13: child x grand-child index, b14-b20: slot
+    idx = bits_index(b0, b1, b2, b3, b4, b5, b6, b7, b8, b9, b10, b11, b12, b13, b14, b15, b16, b17, b18, b19, b20)
+    p = idx >> 14
+    idx = idx & 16383
+    if p >= N_SLOT or idx >= N_CHILD * N_CHILD:
         return True
     return untraced(_expr_roundtrip3_impl, p, idx // N_CHILD, idx % N_CHILD)
 
@@ -95,13 +97,15 @@ def _expr_roundtrip3_impl(p, c, g):
     return _strict_same(out, tree)
 
 
-def stmt_roundtrip(c2: int, b0: bool, b1: bool, b2: bool, b3: bool, b4: bool, b5: bool, b6: bool, b7: bool, b8: bool, b9: bool, b10: bool, b11: bool, b12: bool, b13: bool) -> bool:
+def stmt_roundtrip(b0: bool, b1: bool, b2: bool, b3: bool, b4: bool, b5: bool, b6: bool, b7: bool, b8: bool, b9: bool, b10: bool, b11: bool, b12: bool, b13: bool, b14: bool, b15: bool, b16: bool, b17: bool, b18: bool, b19: bool, b20: bool) -> bool:
     """
-    pre: 0 <= c2 < N_CHILD
     post: _
     """
-    idx = bits_index(b0, b1, b2, b3, b4, b5, b6, b7, b8, b9, b10, b11, b12, b13)
-    if idx >= N_STMT * N_CHILD:
+    # b0-b13: statement template x child index, b14-b20: second child kind
+    idx = bits_index(b0, b1, b2, b3, b4, b5, b6, b7, b8, b9, b10, b11, b12, b13, b14, b15, b16, b17, b18, b19, b20)
+    c2 = idx >> 14
+    idx = idx & 16383
+    if c2 >= N_CHILD or idx >= N_STMT * N_CHILD:
         return True
     return untraced(_stmt_roundtrip_impl, idx // N_CHILD, idx % N_CHILD, c2)
 
@@ -137,13 +141,15 @@ def _expr_twin_impl(p, c):
     return '(' not in python_minifier.unparse(ast.parse(text)).split('=', 1)[1]
 
 
-def minify_total(ov: int, b0: bool, b1: bool, b2: bool, b3: bool, b4: bool, b5: bool, b6: bool, b7: bool, b8: bool, b9: bool, b10: bool, b11: bool, b12: bool, b13: bool) -> bool:
+def minify_total(b0: bool, b1: bool, b2: bool, b3: bool, b4: bool, b5: bool, b6: bool, b7: bool, b8: bool, b9: bool, b10: bool, b11: bool, b12: bool, b13: bool, b14: bool, b15: bool, b16: bool, b17: bool, b18: bool, b19: bool) -> bool:
     """
-    pre: 0 <= ov < N_OV
     post: _
     """
-    idx = bits_index(b0, b1, b2, b3, b4, b5, b6, b7, b8, b9, b10, b11, b12, b13)
-    if idx >= N_STMT * N_CHILD:
+    # b0-b13: statement template x child index, b14-b19: option vector
+    idx = bits_index(b0, b1, b2, b3, b4, b5, b6, b7, b8, b9, b10, b11, b12, b13, b14, b15, b16, b17, b18, b19)
+    ov = idx >> 14
+    idx = idx & 16383
+    if ov >= N_OV or idx >= N_STMT * N_CHILD:
         return True
     return untraced(_minify_total_impl, idx // N_CHILD, idx % N_CHILD, ov)
 
@@ -160,13 +166,15 @@ def _minify_total_impl(s, c, ov):
     return G.compiles(out)
 
 
-def minify_total_expr(ov: int, b0: bool, b1: bool, b2: bool, b3: bool, b4: bool, b5: bool, b6: bool, b7: bool, b8: bool, b9: bool, b10: bool, b11: bool, b12: bool, b13: bool) -> bool:
+def minify_total_expr(b0: bool, b1: bool, b2: bool, b3: bool, b4: bool, b5: bool, b6: bool, b7: bool, b8: bool, b9: bool, b10: bool, b11: bool, b12: bool, b13: bool, b14: bool, b15: bool, b16: bool, b17: bool, b18: bool, b19: bool) -> bool:
     """
-    pre: 0 <= ov < N_OV
     post: _
     """
-    idx = bits_index(b0, b1, b2, b3, b4, b5, b6, b7, b8, b9, b10, b11, b12, b13)
-    if idx >= N_SLOT * N_CHILD:
+    # b0-b13: slot x child index, b14-b19: option vector
+    idx = bits_index(b0, b1, b2, b3, b4, b5, b6, b7, b8, b9, b10, b11, b12, b13, b14, b15, b16, b17, b18, b19)
+    ov = idx >> 14
+    idx = idx & 16383
+    if ov >= N_OV or idx >= N_SLOT * N_CHILD:
         return True
     return untraced(_minify_total_expr_impl, idx // N_CHILD, idx % N_CHILD, ov)
 
@@ -274,7 +282,7 @@ def public_integer_total(di, first, prev):
 
 
 def fstring_known_bits(*bits):
-    idx = bits_index(*bits)
+    idx = bits_index(*bits) & 16383
     if idx >= N_SLOT * N_CHILD:
         return False
     return fstring_known(idx // N_CHILD, idx % N_CHILD)
@@ -285,8 +293,10 @@ def fstring_known(p, c):
     return G.CHILD[c] in ('b"\\x00\\xff"', '"\\x00"') and 'f"' in G.SLOT[p]
 
 
-def public_minify_total_expr(ov, **bits):
-    idx = bits_index(*[bits['b%d' % i] for i in range(14)])
+def public_minify_total_expr(**bits):
+    idx = bits_index(*[bits['b%d' % i] for i in range(20)])
+    ov = idx >> 14
+    idx = idx & 16383
     p, c = idx // N_CHILD, idx % N_CHILD
     adm = G.expr_tree(p, c)
     if adm is None:
